@@ -9,6 +9,7 @@ import (
 	"go/types"
 	"regexp"
 	"sort"
+	"strconv"
 	"strings"
 )
 
@@ -309,6 +310,53 @@ func (c *FnCtx) callFunc(st *State, fn *types.Func, sig *types.Signature, recv *
 			if cp.Label != fn.Name() {
 				continue
 			}
+			// an argument that is the merged result of an inlined helper: one obligation per
+			// return path of the helper
+			split := -1
+			for i := range args {
+				if len(args[i].Cases) > 0 {
+					split = i
+					break
+				}
+			}
+			if split >= 0 {
+				for _, cs := range args[split].Cases {
+					tmp := st.clone()
+					tmp.pc = cs.cond
+					sc := c.specScopeAt(tmp)
+					names := cp.Props
+					if len(names) > 0 && names[0] == "self" {
+						if recv != nil {
+							sc.vars["self"] = *recv
+						}
+						names = names[1:]
+					}
+					for i, an := range names {
+						if an != "" && i < len(args) {
+							if i == split {
+								sc.vars[an] = cs.v
+							} else {
+								sc.vars[an] = args[i]
+							}
+						}
+					}
+					oname := ""
+					if split == 0 {
+						for lit, sym := range c.strLits {
+							if sym == cs.v.S {
+								oname = "callpre:" + fn.Name() + "(" + strconv.Quote(lit) + ")"
+								for _, o := range c.obls {
+									if o.Name == c.fname+"/"+oname {
+										oname = ""
+									}
+								}
+							}
+						}
+					}
+					c.obligeNamed(tmp, "callpre", oname, sc.boolOf(cp.Expr), "at the call of "+fn.Name()+": "+cp.Src, call.Pos())
+				}
+				continue
+			}
 			sc := c.specScopeAt(st)
 			names := cp.Props
 			if len(names) > 0 && names[0] == "self" {
@@ -466,6 +514,13 @@ func (c *FnCtx) inlineBody(st *State, key string, sig *types.Signature, body *as
 		res = Val{K: KUnit}
 	case 1:
 		res = m.env[sig.Results().At(0)]
+		if len(rets) > 1 && len(rets) <= 64 && end == nil && res.K == KStr {
+			for _, r := range rets {
+				if len(r.vals) == 1 && r.st.pc != "false" {
+					res.Cases = append(res.Cases, valCase{r.st.pc, r.vals[0]})
+				}
+			}
+		}
 	default:
 		res = Val{K: KTuple}
 		for i := 0; i < nres; i++ {
